@@ -47,6 +47,10 @@ def campaign(prop, subname, decode_name, instrument, runs_quick=20000, runs_thor
         # the campaign is bounded by count; the wall limit only keeps a slow machine from overrunning the tier
         # (what was executed until then is reported; running out of time is never a violation)
         max_time = max_time_quick if tier == "quick" else max_time_thorough
+        try:
+            max_time = max(10, min(max_time, int(float(os.environ.get("VERIF_SUB_BUDGET", max_time)))))
+        except ValueError:
+            pass
         work = tempfile.mkdtemp(prefix="vp-fuzz-%s-" % prop)
         try:
             out = os.path.join(work, "result.json")
